@@ -24,6 +24,13 @@ repeated queries, a reused NetworkX view object).  The specification side is rec
 dump of each state, so it cannot share hidden state with the implementation.  The row / column order of
 S is gated against the model (`buildS_orders`); see `ctx.assumptions` for how a divergence is classified.
 
+A further population hands the network over as a HAND-BUILT bipartite NetworkX graph (DiGraph and undirected Graph, the
+documented conventions: `kind` / `bipartite` flags, `label`, `role`, `stoich`): node ids (ints, strings, mixed) unrelated to the
+labels, nodes and edges inserted in any order, objects extended / edited in place / copied / rebuilt between queries.  The
+expected network is read off the case DESCRIPTION only (`graph_states`); rows are compared by the returned species label, the
+returned order must be the lexicographic label order `_species_and_reaction_order` documents, and every returned kernel vector /
+witness has to annihilate the label-indexed matrix of the described network.
+
 The modelled decision logic (`stoich.logic`) is run on the observed oracle outcomes
 (kernel sizes, sign-definite columns, LP status) and its agreement with the implementation is
 recorded in the counters (not gated: `None` versus `False` is not fixed by the property).
@@ -73,7 +80,12 @@ GATES = ("S entries = produced - consumed (rows by returned species label, colum
          "annihilate S within 1e-9 relative to the vector norm; summary dimensions; is_conservative / compute_conservativity / "
          "summary.is_conservative is True <=> a checked strictly positive left-kernel vector exists; returned conservation law is "
          "positive and annihilates S (numerically); is_consistent / summary.is_consistent is True <=> a checked strictly positive "
-         "right-kernel vector exists.")
+         "right-kernel vector exists.  HAND-BUILT bipartite NetworkX graphs (every anchored entry point called with the graph object): "
+         "returned species / reaction labels = the label attribute (else the node id as string), in lexicographic order; the entry in the row "
+         "labelled s and a column labelled r = produced - consumed of s in a reaction labelled r (columns with equal label as a multiset; a "
+         "missing stoich counts 1); same for S_minus / S_plus; build_S(graph) = build_S(CRNHyperGraph of the described network) = that "
+         "store's incidence_matrix under identical species labels; rank, dimensions, verdicts as above against certificates of the described "
+         "network; every kernel basis / witness annihilates the described network's matrix indexed by the returned labels.")
 
 
 # =============================================================== exact linear algebra
@@ -894,6 +906,19 @@ def judge(obs, cert, lean):
         v.append(("build_S: the order of the rows / columns of S differs from the model of build_S (species by label; reactions in the store's "
                   "edge order, stably regrouped by rule label) although the columns agree as a multiset",
                   {"divergences": order_div[:3], "model": list(model), "store_edge_order": [c[4] for c in cols]}, (), True))
+    store_msg = ("the network's own incidence matrix taken in the store's edge order "
+                 "(build_S arranges the columns of S in another order than the reactions they stand for; the returned reaction "
+                 "labels are the rule names and cannot undo it)")
+    judge_numbers(v, obs, cert, m, n, r, store_msg,
+                  {"build_S": [obs["species"], obs["rules"], obs["S"]], "model": list(model), "store_edge_order": [c[4] for c in cols]})
+    return v
+
+
+def judge_numbers(v, obs, cert, m, n, r, store_msg, store_detail):
+    """Gates on rank, dimensions, kernel bases, verdicts and witnesses (shared by store inputs and hand-built graphs);
+    appends to v."""
+    conservative = cert["cons"] == "pos"
+    consistent = cert["consi"] == "pos"
     # -- rank and dimensions
     if obs["rank"] != r:
         v.append(("stoichiometric_rank differs from the certified exact rank", {"impl": obs["rank"], "exact": r}, ()))
@@ -912,11 +937,8 @@ def judge(obs, cert, lean):
         elif not rep["independent"]:
             v.append((f"{name}: reported vectors are numerically dependent", {"shape": rep["shape"]}, ()))
         elif rep.get("worst_store", 0.0) > TOL:
-            v.append((f"{name}: a basis vector does not annihilate the network's own incidence matrix taken in the store's edge order "
-                      "(build_S arranges the columns of S in another order than the reactions they stand for; the returned reaction "
-                      "labels are the rule names and cannot undo it)",
-                      {"worst_relative_residual": rep["worst_store"], "build_S": [obs["species"], obs["rules"], obs["S"]],
-                       "model": list(model), "store_edge_order": [c[4] for c in cols]}, ()))
+            v.append((f"{name}: a basis vector does not annihilate " + store_msg,
+                      {"worst_relative_residual": rep["worst_store"], **store_detail}, ()))
     # -- conservativity
     lk = obs["oracle"]["lk"]
     lp_stage = lk >= 2 and not any(obs["oracle"]["lscan"])
@@ -1169,12 +1191,13 @@ def run_nets(ctx, nets, tag, chunk=6000):
 
 
 # ---------------------------------------------------------------- sessions
-def evaluate_sessions(ctx, cases, parallel=True):
+def evaluate_sessions(ctx, cases, parallel=True, worker=None):
     """-> per case: (list of (obs, cert, lean, logic) per state, log of concrete calls per state)."""
+    worker = worker or work_session
     if parallel and len(cases) >= 32:
-        rows = pool().map(work_session, cases, chunksize=max(1, min(50, len(cases) // 64)))
+        rows = pool().map(worker, cases, chunksize=max(1, min(50, len(cases) // 64)))
     else:
-        rows = [work_session(c) for c in cases]
+        rows = [worker(c) for c in cases]
     flat = [(i, k, st) for i, (states, _) in enumerate(rows) for k, st in enumerate(states)]
     leans = ctx.lean().ok([st[2] for _, _, st in flat], shards=8)
     lidx = [j for j, (_, _, st) in enumerate(flat) if st[3] is not None]
@@ -1269,6 +1292,645 @@ def run_sessions(ctx, cases, tag):
                 report(ctx, what, pref, {**detail, "stream": tag, "failing_state": k,
                                          "history": ["H = <base network>"] + [" ; ".join(l) for l in calls[1:k + 1]]},
                        classes, no_input, state, lambda c, w: shrink_session(ctx, c, w))
+        if state["unknown"] > 40:
+            break
+
+
+# =============================================================== hand-built bipartite NetworkX graphs
+# A case is a DESCRIPTION of a bipartite graph (nodes with id / part / flags / optional label, edges with role / optional
+# stoich) plus a list of operations: insert node i, insert edge j, change a coefficient / a label in place, copy the graph
+# object, rebuild it with another insertion order, query.  The specification side (`graph_states`) reads the description
+# only; the implementation side (`work_graph`) builds the real NetworkX object and hands it to every anchored entry point.
+GBLOCKS = ("S", "Smp", "same", "rank", "left", "right", "lrk", "psf", "tsf", "laws", "is_cons", "compute", "is_consi", "summary",
+           "hyper")
+
+
+def g_label(nd):
+    return str(nd["label"]) if "label" in nd else str(nd["id"])
+
+
+def g_attrs(nd):
+    a = {}
+    if nd["flags"] in ("kind", "both"):
+        a["kind"] = "species" if nd["part"] == "s" else "reaction"
+    if nd["flags"] in ("bipartite", "both"):
+        a["bipartite"] = 0 if nd["part"] == "s" else 1
+    if "label" in nd:
+        a["label"] = nd["label"]
+    a.update(nd.get("extra") or {})
+    return a
+
+
+def g_dump(directed, nodes, edges, declared, touched, present):
+    """The network a graph description stands for, in the shape of a store dump (species = sorted labels; one reaction per
+    declared reaction node, id = e<index of the node in the description>, rule = its label)."""
+    if not declared or not touched <= set(declared):
+        raise Infra("graph case: a node mentioned by an edge has no attributes at query time")
+    seen = set()
+    for j in present:
+        e = edges[j]
+        if nodes[e["s"]]["part"] != "s" or nodes[e["r"]]["part"] != "r" or e["role"] not in ("reactant", "product"):
+            raise Infra("graph case: edge does not join a species to a reaction")
+        key = (e["s"], e["r"], e["role"]) if directed else (e["s"], e["r"])
+        if key in seen:
+            raise Infra("graph case: two edges on the same pair of nodes")
+        seen.add(key)
+    labels = {i: g_label(nodes[i]) for i in declared if nodes[i]["part"] == "s"}
+    if not labels or len(set(labels.values())) != len(labels):
+        raise Infra("graph case: species labels are not distinct")
+    ids = [nodes[i]["id"] for i in declared]
+    if len(set(ids)) != len(ids) or any(type(x) not in (int, str) for x in ids):
+        raise Infra("graph case: node ids are not distinct ints / strings")
+    out = []
+    for k in sorted(i for i in declared if nodes[i]["part"] == "r"):
+        r, p = [], []
+        for j in present:
+            e = edges[j]
+            if e["r"] == k:
+                c = 1 if e.get("stoich") is None else int(e["stoich"])
+                if c < 1:
+                    raise Infra("graph case: coefficient < 1")
+                (r if e["role"] == "reactant" else p).append([labels[e["s"]], c])
+        if not r and not p:
+            raise Infra("graph case: reaction node without edges at query time")
+        out.append({"id": f"e{k:03d}", "rule": g_label(nodes[k]), "r": sorted(r), "p": sorted(p)})
+    if not out:
+        raise Infra("graph case: no reaction node")
+    return {"species": sorted(labels.values()), "edges": out}
+
+
+def graph_states(case):
+    """Specification side: interpret the operations on the description only.  -> [(dump, query plan)] per query."""
+    g = case["graph"]
+    nodes = [dict(n) for n in g["nodes"]]
+    edges = [dict(e) for e in g["edges"]]
+    declared, touched, present, out = [], set(), [], []
+    for op in case["ops"]:
+        k = op[0]
+        if k == "n":
+            if op[1] in declared:
+                raise Infra("graph case: node declared twice")
+            declared.append(op[1])
+        elif k == "e":
+            if op[1] in present:
+                raise Infra("graph case: edge inserted twice")
+            present.append(op[1])
+            touched |= {edges[op[1]]["s"], edges[op[1]]["r"]}
+        elif k == "c":
+            if op[1] not in present:
+                raise Infra("graph case: coefficient of an absent edge")
+            edges[op[1]]["stoich"] = op[2]
+        elif k == "l":
+            if op[1] not in declared:
+                raise Infra("graph case: label of an absent node")
+            nodes[op[1]]["label"] = op[2]
+        elif k == "copy":
+            pass
+        elif k == "perm":
+            if sorted(op[1]) != sorted(declared) or sorted(op[2]) != sorted(present) or touched - set(declared):
+                raise Infra("graph case: rebuild does not list the current nodes / edges")
+            declared, present = list(op[1]), list(op[2])
+        elif k == "q":
+            out.append((g_dump(g["directed"], nodes, edges, declared, touched, present), op[1] if len(op) > 1 else {}))
+        else:
+            raise Infra(f"graph case: unknown operation {k}")
+    if not out or case["ops"][-1][0] != "q":
+        raise Infra("graph case: the last operation is not a query")
+    return out
+
+
+def label_matrix(dump, species, rules, Si):
+    """produced - consumed of the described network with rows in the order of the RETURNED species labels and columns
+    in the order of the RETURNED reaction labels (equally labelled reactions: aligned with the returned columns where
+    they agree).  None when the returned labels are not the network's."""
+    import numpy as np
+
+    sp, cols = spec_S(dump)
+    if sorted(species) != sp or len(set(species)) != len(species) or sorted(rules) != sorted(c[0] for c in cols):
+        return None
+    ridx = [sp.index(s) for s in species]
+    unused, pick = list(range(len(cols))), []
+    for j, lab in enumerate(rules):
+        cand = [k for k in unused if cols[k][0] == lab]
+        k = next((k for k in cand if all(Si[i][j] == cols[k][1][ridx[i]] for i in range(len(species)))), cand[0])
+        unused.remove(k)
+        pick.append(k)
+    return np.array([[cols[k][1][i] for k in pick] for i in ridx], dtype=float).reshape(len(species), len(cols))
+
+
+def observe_G(G, dump, plan):
+    """Run every anchored entry point on one NetworkX graph object.  `dump`: the network the description stands for
+    (used for the label-indexed matrix the returned vectors have to annihilate and for the equivalent CRNHyperGraph)."""
+    import numpy as np
+    from synkit.CRN.Props import stoich
+    from synkit.CRN.Petri import semiflows
+
+    out = {"dump": dump}
+    real = stoich.linprog
+    rec = _LinprogRecorder(real)
+    raw = {}
+    opts = plan.get("opts")
+
+    def with_calls(key, f, sink):
+        a = len(rec.calls)
+        sink[key] = f()
+        sink[key + "_calls"] = rec.calls[a:]
+
+    def b_hyper(sink):
+        # the same network as a store object (built from the description): its build_S and its own incidence matrix
+        H = build_net(net_of_dump(dump))
+        sink["hyper"] = stoich.build_S(H)
+        sink["hyper_inc"] = H.incidence_matrix(sparse=False)
+
+    blocks = {
+        "S": lambda k: k.__setitem__("S", stoich.build_S(G)),
+        "Smp": lambda k: k.__setitem__("Smp", stoich.build_S_minus_plus(G)),
+        "same": lambda k: k.__setitem__("same", stoich.stoichiometric_matrix(G)),
+        "rank": lambda k: k.__setitem__("rank", int(stoich.stoichiometric_rank(G))),
+        "left": lambda k: k.__setitem__("left", stoich.left_nullspace(G)),
+        "right": lambda k: k.__setitem__("right", stoich.right_nullspace(G)),
+        "lrk": lambda k: k.__setitem__("lrk", stoich.left_right_kernels(G)),
+        "psf": lambda k: k.__setitem__("psf", semiflows.find_p_semiflows(G)),
+        "tsf": lambda k: k.__setitem__("tsf", semiflows.find_t_semiflows(G)),
+        "laws": lambda k: k.__setitem__("laws", stoich.integer_conservation_laws(G)),
+        "is_cons": lambda k: with_calls("is_cons", lambda: stoich.is_conservative(G), k),
+        "compute": lambda k: with_calls("compute", lambda: stoich.compute_conservativity(G), k),
+        "is_consi": lambda k: with_calls("is_consi", lambda: stoich.is_consistent(G), k),
+        "summary": lambda k: with_calls("summary", lambda: stoich.summary(G), k),
+        "hyper": b_hyper,
+    }
+    order = list(plan.get("order") or GBLOCKS)
+    if sorted(order) != sorted(GBLOCKS):
+        raise Infra(f"bad query order {order}")
+    stoich.linprog = rec
+    try:
+        for name in plan.get("warm", ()):
+            blocks[name]({})
+        for name in order:
+            if name == "S":
+                try:
+                    blocks[name](raw)
+                except ValueError as e:
+                    out["error"] = "ValueError"
+                    out["error_text"] = str(e)
+                    return out
+            else:
+                blocks[name](raw)
+        oraw = None
+        if opts:
+            oraw = {}
+            oraw["rank"] = int(stoich.stoichiometric_rank(G, tol=opts["tol"]))
+            oraw["left"] = stoich.left_nullspace(G, rtol=opts["rtol"])
+            oraw["right"] = stoich.right_nullspace(G, rtol=opts["rtol"])
+            oraw["lrk"] = stoich.left_right_kernels(G, rtol=opts["rtol"])
+            oraw["psf"] = semiflows.find_p_semiflows(G, rtol=opts["rtol"])
+            oraw["tsf"] = semiflows.find_t_semiflows(G, rtol=opts["rtol"])
+            oraw["is_cons"] = stoich.is_conservative(G, eps=opts["eps"])
+            oraw["compute"] = stoich.compute_conservativity(G, rtol=opts["rtol"], eps=opts["eps"])
+            oraw["is_consi"] = stoich.is_consistent(G, eps=opts["ceps"])
+    finally:
+        stoich.linprog = real
+
+    sp, rules, S = raw["S"]
+    sp2, rules2, Sm, Sp = raw["Smp"]
+    Si, exact = as_int_matrix(S)
+    Smi, e1 = as_int_matrix(Sm)
+    Spi, e2 = as_int_matrix(Sp)
+    out.update(species=[str(s) for s in sp], rules=[str(r) for r in rules], S=Si, S_minus=Smi, S_plus=Spi,
+               integral=exact and e1 and e2, same_orders=(list(sp) == list(sp2) and list(rules) == list(rules2)),
+               shape=list(np.asarray(S).shape))
+    Sf = np.array(Si, dtype=float).reshape(len(sp), len(rules))
+    St = label_matrix(dump, out["species"], out["rules"], Si) if np.asarray(S).shape == (len(sp), len(rules)) else None
+    if St is not None and St.shape != Sf.shape:
+        St = None
+    hs, hr, hS = raw["hyper"]
+    hSi, hex_ = as_int_matrix(hS)
+    so, eo, inc = raw["hyper_inc"]
+    out["hyper"] = {"species": [str(x) for x in hs], "rules": [str(x) for x in hr], "S": hSi, "integral": hex_,
+                    "inc": {"species": list(so), "edges": list(eo), "M": [[int(x) for x in row] for row in np.asarray(inc).tolist()]}}
+    out["stoichiometric_matrix_same"] = bool(np.array_equal(raw["same"], S))
+    out["rank"] = raw["rank"]
+    Lb, Rb = raw["left"], raw["right"]
+
+    def rep(B, side, nrows):
+        r = basis_report(B, Sf, side, nrows)
+        if St is not None and not r.get("bad_shape") and "worst" in r:
+            r["worst_store"] = basis_report(B, St, side, nrows)["worst"]
+        return r
+
+    def witness(mw):
+        if mw is None:
+            return None
+        mw = np.asarray(mw, dtype=float)
+        nm = float(np.linalg.norm(mw))
+        ok = mw.size == len(sp) and nm > 0
+        w = {"len": int(mw.size), "positive": bool(mw.size == len(sp) and np.all(mw > 0)),
+             "residual": (float(np.max(np.abs(mw @ Sf))) / nm) if ok else float("inf")}
+        if St is not None and ok:
+            w["residual_store"] = float(np.max(np.abs(mw @ St))) / nm
+        return w
+
+    out["left"] = rep(Lb, "left", len(sp))
+    out["right"] = rep(Rb, "right", len(rules))
+    L2, R2 = raw["lrk"]
+    out["left_right_kernels"] = [rep(L2, "left", len(sp)), rep(R2, "right", len(rules))]
+    out["p_semiflows"] = rep(raw["psf"], "left", len(sp))
+    out["t_semiflows"] = rep(raw["tsf"], "right", len(rules))
+    laws = raw["laws"]
+    out["int_laws"] = {"n": len(laws), "exact": sum(1 for l in laws if len(l) == len(sp) and any(l) and
+                                                      all(sum(l[i] * Si[i][j] for i in range(len(sp))) == 0 for j in range(len(rules))))}
+    out["is_conservative"] = raw["is_cons"]
+    flag, mw = raw["compute"]
+    out["is_consistent"] = raw["is_consi"]
+    out["compute_flag"] = flag
+    out["witness"] = witness(mw)
+    out["summary"] = {k: (v if v is None or isinstance(v, bool) else int(v)) for k, v in raw["summary"].to_dict().items()}
+    if oraw is not None:
+        o2 = {"opts": opts, "rank": oraw["rank"], "left": rep(oraw["left"], "left", len(sp)), "right": rep(oraw["right"], "right", len(rules)),
+              "left_right_kernels": [rep(oraw["lrk"][0], "left", len(sp)), rep(oraw["lrk"][1], "right", len(rules))],
+              "p_semiflows": rep(oraw["psf"], "left", len(sp)), "t_semiflows": rep(oraw["tsf"], "right", len(rules)),
+              "is_conservative": oraw["is_cons"], "compute_flag": oraw["compute"][0], "witness": witness(oraw["compute"][1]),
+              "is_consistent": oraw["is_consi"]}
+        Bo = np.atleast_2d(oraw["left"])
+        ko = Bo.shape[1] if Bo.size else 0
+        o2["lk"] = int(ko)
+        o2["lscan"] = [bool(np.all(Bo[:, k] > opts["eps"]) or np.all(Bo[:, k] < -opts["eps"])) for k in range(ko)]
+        out["opt"] = o2
+    # ---- oracle observations for the modelled decision logic (as for store inputs)
+    B = np.atleast_2d(Lb)
+    k = B.shape[1] if B.size else 0
+    lp_calls = [c for c in raw["is_cons_calls"] if c["kind"] == "ub"]
+    lp = "failed"
+    if lp_calls:
+        c = lp_calls[-1]
+        if c["exc"]:
+            lp = "failed"
+        elif c["success"] and c["x"] is not None:
+            mm = B @ np.array(c["x"], dtype=float)
+            lp = "optimalStrict" if bool(np.all(mm > EPS)) else "optimalNotStrict"
+        elif c["status"] == 2:
+            lp = "infeasible"
+        elif c["status"] == 3:
+            lp = "unbounded"
+    eq_calls = [c for c in raw["is_consi_calls"] if c["kind"] == "eq"]
+    clp = {"kind": "other"}
+    if eq_calls:
+        c = eq_calls[-1]
+        if not c["exc"] and c["success"]:
+            vv = np.array(c["x"], dtype=float)
+            residual = Sf @ vv
+            max_v = float(np.max(np.abs(vv))) or 1.0
+            clp = {"kind": "optimal", "residualOk": bool(np.linalg.norm(residual, ord=np.inf) / max_v <= 1e-8),
+                   "vPos": bool(np.all(vv > EPS))}
+        elif not c["exc"] and c["status"] == 2:
+            clp = {"kind": "infeasible"}
+    RB = np.atleast_2d(Rb)
+    rk = RB.shape[1] if RB.size else 0
+    out["oracle"] = {"nSpecies": len(sp), "nReactions": len(rules), "scipy": bool(stoich._SCIPY_AVAILABLE), "lk": int(k),
+                     "lscan": out["left"].get("signdef", [])[:k] if k else [], "lp": lp, "lp_called": bool(lp_calls),
+                     "rk": int(rk), "rscan": out["right"].get("signdef", [])[:rk] if rk else [], "clp": clp,
+                     "clp_status": eq_calls[-1].get("status") if eq_calls else None}
+    return out
+
+
+def work_graph(case):
+    """Worker: build the NetworkX object operation by operation, observe at every query.
+    -> list of per-query (obs, cert, req, lreq) + the log of concrete calls per query."""
+    import gc
+    import traceback
+    import networkx as nx
+
+    g = case["graph"]
+    spec = graph_states(case)            # description only
+    nodes, edges = g["nodes"], g["edges"]
+    cls = nx.DiGraph if g["directed"] else nx.Graph
+    name = "nx.DiGraph" if g["directed"] else "nx.Graph"
+    G = cls()
+    keep, states, calls = [], [], []
+    log = [f"G = {name}()"]
+    qi = 0
+
+    def nid(i):
+        return nodes[i]["id"]
+
+    def ends(j):
+        e = edges[j]
+        s, r = nid(e["s"]), nid(e["r"])
+        return (s, r) if e["role"] == "reactant" else (r, s)
+
+    for op in case["ops"]:
+        k = op[0]
+        if k == "n":
+            nd = nodes[op[1]]
+            a = g_attrs(nd)
+            G.add_node(nd["id"], **a)
+            log.append(f"G.add_node({nd['id']!r}, **{a!r})")
+        elif k == "e":
+            e = edges[op[1]]
+            u, v = ends(op[1])
+            a = {"role": e["role"]}
+            if e.get("stoich") is not None:
+                a["stoich"] = float(e["stoich"]) if e.get("float") else int(e["stoich"])
+            G.add_edge(u, v, **a)
+            log.append(f"G.add_edge({u!r}, {v!r}, **{a!r})")
+        elif k == "c":
+            u, v = ends(op[1])
+            G.edges[u, v]["stoich"] = op[2]
+            log.append(f"G.edges[{u!r}, {v!r}]['stoich'] = {op[2]!r}")
+        elif k == "l":
+            G.nodes[nid(op[1])]["label"] = op[2]
+            log.append(f"G.nodes[{nid(op[1])!r}]['label'] = {op[2]!r}")
+        elif k == "copy":
+            keep.append(G)
+            G = G.copy()
+            log.append("G = G.copy()")
+        elif k == "perm":
+            new = cls()
+            for i in op[1]:
+                new.add_node(nid(i), **dict(G.nodes[nid(i)]))
+            for j in op[2]:
+                u, v = ends(j)
+                new.add_edge(u, v, **dict(G.edges[u, v]))
+            if op[3]:
+                keep.append(G)
+            G = new
+            gc.collect()
+            log.append(f"G = <new {name} with the same nodes inserted in the order {[nid(i) for i in op[1]]!r}, the same edges, "
+                       + ("the old object kept" if op[3] else "the old object released") + ">")
+        elif k == "q":
+            dump, plan = spec[qi]
+            qi += 1
+            try:
+                obs = observe_G(G, dump, plan)
+            except Exception as e:
+                if isinstance(e, Infra):
+                    raise
+                obs = {"dump": dump, "crash": f"{type(e).__name__}: {e}", "trace": traceback.format_exc()[-1500:]}
+            states.append(package(obs))
+            calls.append(log)
+            log = []
+    return states, calls
+
+
+def judge_G(obs, cert, lean):
+    """Gates for one query on a hand-built graph.  -> list of (what, detail, classes[, no_input])."""
+    v = []
+    dump = obs["dump"]
+    if "crash" in obs:
+        return [("an anchored entry point raised on a well-formed bipartite NetworkX graph: " + obs["crash"].split(":")[0],
+                 {"error": obs["crash"], "trace": obs["trace"]}, ())]
+    if "error" in obs:
+        return [("build_S raised " + obs["error"] + " on a bipartite NetworkX graph that has species and reaction nodes",
+                 {"text": obs.get("error_text")}, ())]
+    sp, cols = spec_S(dump)
+    m, n = len(sp), len(cols)
+    r = cert["r"]
+    for key in ("rankOk", "rkerOk", "lkerOk"):
+        if lean.get(key) is not True:
+            raise Infra(f"certificate {key} rejected by the Lean checker for {json.dumps(dump)}")
+    for key in ("cons", "consi"):
+        if lean[key]["ok"] is not True or lean[key]["kind"] != cert[key]:
+            raise Infra(f"certificate {key} rejected by the Lean checker for {json.dumps(dump)}")
+    if lean["ids"] != [c[4] for c in cols] or lean["species"] != sp:
+        raise Infra(f"harness and model disagree on the presentation order of S for {json.dumps(dump)}")
+    if lean["r"] != r or lean["incidenceAgrees"] is not True:
+        raise Infra("model: rank certificate size / incidence agreement")
+    want_rules = sorted(c[0] for c in cols)
+    if not obs["integral"] or obs["shape"] != [m, n] or not obs["same_orders"] or not obs["stoichiometric_matrix_same"]:
+        return [("build_S on a bipartite NetworkX graph: matrix is not an integral n_species x n_reactions array shared by build_S / "
+                 "build_S_minus_plus / stoichiometric_matrix", {"shape": obs["shape"], "expected": [m, n]}, ())]
+    if sorted(obs["species"]) != sp or len(set(obs["species"])) != len(obs["species"]):
+        return [("build_S on a bipartite NetworkX graph: rows are not one per species label", {"impl": obs["species"], "spec": sp}, ())]
+    if sorted(obs["rules"]) != want_rules:
+        return [("build_S on a bipartite NetworkX graph: columns are not one per reaction label", {"impl": obs["rules"], "spec": want_rules}, ())]
+    # -- entries: rows taken by the RETURNED species label, columns as a multiset with their reaction label
+    want = sorted((c[0], tuple((s, x) for s, x in zip(sp, c[1]))) for c in cols)
+    ridx = [obs["species"].index(s) for s in sp]
+    got = col_multiset(sp, obs["rules"], [obs["S"][i] for i in ridx])
+    if got != want:
+        v.append(("build_S on a bipartite NetworkX graph: the entry in the row labelled s and a column labelled r is not "
+                  "(produced minus consumed) of species s in a reaction labelled r", {"impl": got, "spec": want,
+                                                                                   "returned": [obs["species"], obs["rules"], obs["S"]]}, ()))
+    want_m = sorted((c[0], tuple((s, x) for s, x in zip(sp, c[2]))) for c in cols)
+    want_p = sorted((c[0], tuple((s, x) for s, x in zip(sp, c[3]))) for c in cols)
+    if col_multiset(sp, obs["rules"], [obs["S_minus"][i] for i in ridx]) != want_m or \
+            col_multiset(sp, obs["rules"], [obs["S_plus"][i] for i in ridx]) != want_p:
+        v.append(("build_S_minus_plus on a bipartite NetworkX graph: S_minus / S_plus differ from the consumed / produced counts "
+                  "(rows by returned species label)", {"S_minus": obs["S_minus"], "S_plus": obs["S_plus"], "species": obs["species"]}, ()))
+    if any(obs["S"][i][j] != obs["S_plus"][i][j] - obs["S_minus"][i][j] for i in range(m) for j in range(n)):
+        v.append(("build_S: S differs from S_plus - S_minus", {}, ()))
+    # -- the documented order: species and reactions lexicographically by label
+    if obs["species"] != sp or obs["rules"] != want_rules:
+        v.append(("build_S on a bipartite NetworkX graph: species / reactions are not returned in the lexicographic order of their labels "
+                  "(promised by _species_and_reaction_order)", {"impl": [obs["species"], obs["rules"]], "sorted": [sp, want_rules]}, ()))
+    # -- the same network as a store object: build_S(H) and H's own incidence matrix, under identical labels
+    hy = obs["hyper"]
+    # (columns as a multiset of vectors: how a store spells an empty / missing rule label is not the graph's business)
+    if not hy["integral"] or sorted(hy["species"]) != sp or \
+            sorted(c[1] for c in col_multiset(sp, hy["rules"], [hy["S"][hy["species"].index(x)] for x in sp])) != sorted(c[1] for c in got):
+        v.append(("build_S(bipartite NetworkX graph) differs from build_S(CRNHyperGraph of the same network) under identical labels",
+                  {"graph": got, "hypergraph": [hy["species"], hy["rules"], hy["S"]]}, ()))
+    inc = hy["inc"]
+    if sorted(inc["species"]) == sp:
+        iidx = [inc["species"].index(s) for s in sp]
+        a = sorted(tuple(inc["M"][i][j] for i in iidx) for j in range(len(inc["edges"])))
+        b = sorted(tuple(obs["S"][i][j] for i in ridx) for j in range(n))
+        if a != b:
+            v.append(("build_S(bipartite NetworkX graph) disagrees with the network's own incidence_matrix under identical species labels "
+                      "(columns compared as a multiset)", {"incidence": a, "build_S": b}, ()))
+    else:
+        raise Infra(f"equivalent CRNHyperGraph does not have the described species: {inc['species']} vs {sp}")
+    if v:
+        return v
+    store_msg = ("the produced-minus-consumed matrix of the described network indexed by the returned species / reaction labels")
+    judge_numbers(v, obs, cert, m, n, r, store_msg, {"returned": [obs["species"], obs["rules"], obs["S"]]})
+    return v
+
+
+def record_G(ctx, case, k, obs, cert, tag, canon):
+    dump = obs["dump"]
+    g = case["graph"]
+    if "crash" in obs or "error" in obs:
+        ctx.count("graph:implementation_raised")
+        ctx.case(canon, False)
+        return
+    m, n, r = len(dump["species"]), len(dump["edges"]), cert["r"]
+    ctx.count(f"{tag}:queries")
+    ctx.count("graph:" + ("DiGraph" if g["directed"] else "Graph(undirected)"))
+    ctx.count("conservative:" + ("yes" if cert["cons"] == "pos" else "no"))
+    ctx.count("consistent:" + ("yes" if cert["consi"] == "pos" else "no"))
+    ctx.count(f"left_kernel_dim:{min(m - r, 3)}{'+' if m - r >= 3 else ''}")
+    ctx.count(f"right_kernel_dim:{min(n - r, 3)}{'+' if n - r >= 3 else ''}")
+    if "opt" in obs:
+        ctx.count("non_default_tolerances")
+    if obs["witness"] is not None:
+        ctx.count("witness_returned")
+    nontrivial = n >= 1 and r >= 1
+    ctx.case(canon, nontrivial, sample={"stream": tag, "graph": g, "ops": case["ops"], "rank": r} if len(g["nodes"]) <= 5 else None)
+
+
+def graph_profile(case):
+    """Counters describing how the final graph object was put together (description only)."""
+    g = case["graph"]
+    nodes = [dict(n) for n in g["nodes"]]
+    order = []
+    for op in case["ops"]:
+        if op[0] == "n" and op[1] not in order:
+            order.append(op[1])
+        elif op[0] == "e":
+            for i in (g["edges"][op[1]]["s"], g["edges"][op[1]]["r"]) if g["edges"][op[1]]["role"] == "reactant" else \
+                    (g["edges"][op[1]]["r"], g["edges"][op[1]]["s"]):
+                if i not in order:
+                    order.append(i)
+        elif op[0] == "l":
+            nodes[op[1]]["label"] = op[2]
+        elif op[0] == "perm":
+            order = list(op[1])
+    out = []
+    for part, name in (("s", "species"), ("r", "reactions")):
+        labs = [g_label(nodes[i]) for i in order if nodes[i]["part"] == part]
+        out.append(f"graph:{name}_inserted_" + ("in_label_order" if labs == sorted(labs) else "NOT_in_label_order"))
+    kinds = {type(n["id"]).__name__ for n in nodes}
+    out.append("graph:node_ids:" + "+".join(sorted(kinds)))
+    out.append("graph:labels:" + ("some_missing" if any("label" not in n for n in nodes) else
+                                   "differ_from_ids" if any(str(n.get("label")) != str(n["id"]) for n in nodes) else "equal_ids"))
+    out.append("graph:flags:" + "+".join(sorted({n["flags"] for n in nodes})))
+    rl = [g_label(n) for n in nodes if n["part"] == "r"]
+    out.append("graph:reaction_labels:" + ("distinct" if len(set(rl)) == len(rl) else "with_ties"))
+    out.append("graph:queries:" + str(min(3, sum(1 for op in case["ops"] if op[0] == "q"))) + ("+" if sum(1 for op in case["ops"] if op[0] == "q") >= 3 else ""))
+    for op in case["ops"]:
+        if op[0] in ("c", "l", "copy", "perm"):
+            out.append("graph_edit:" + {"c": "coefficient_in_place", "l": "label_in_place", "copy": "copy", "perm": "rebuilt_other_insertion_order"}[op[0]])
+    return out
+
+
+def graph_prefix(case, k):
+    """The operations up to and including the k-th query."""
+    ops, seen = [], -1
+    for op in case["ops"]:
+        ops.append(op)
+        if op[0] == "q":
+            seen += 1
+            if seen == k:
+                break
+    return {"graph": case["graph"], "ops": ops}
+
+
+def graph_failures(ctx, case):
+    (states, _), = evaluate_sessions(ctx, [case], parallel=False, worker=work_graph)
+    return [(k, t[0]) for k, (obs, cert, lean, _) in enumerate(states) for t in judge_G(obs, cert, lean)]
+
+
+def shrink_graph(ctx, case, what):
+    """Greedy: drop earlier queries / edits, query-plan options, reaction nodes (with their edges), single edges, species
+    without edges; lower coefficients; the LAST query has to keep failing the same gate."""
+    def nq(c):
+        return sum(1 for op in c["ops"] if op[0] == "q")
+
+    def fails(cand):
+        try:
+            return any(k == nq(cand) - 1 and w == what for k, w in graph_failures(ctx, cand))
+        except Exception:
+            return False
+
+    def without_node(c, i):
+        """Drop node i and its edges, renumbering the description."""
+        g = c["graph"]
+        ekeep = [j for j, e in enumerate(g["edges"]) if e["s"] != i and e["r"] != i]
+        nmap = {a: b for b, a in enumerate(a for a in range(len(g["nodes"])) if a != i)}
+        emap = {a: b for b, a in enumerate(ekeep)}
+        g2 = {"directed": g["directed"], "nodes": [n for a, n in enumerate(g["nodes"]) if a != i],
+              "edges": [{**g["edges"][j], "s": nmap[g["edges"][j]["s"]], "r": nmap[g["edges"][j]["r"]]} for j in ekeep]}
+        ops = []
+        for op in c["ops"]:
+            if op[0] in ("n", "l"):
+                if op[1] != i:
+                    ops.append([op[0], nmap[op[1]]] + list(op[2:]))
+            elif op[0] in ("e", "c"):
+                if op[1] in emap:
+                    ops.append([op[0], emap[op[1]]] + list(op[2:]))
+            elif op[0] == "perm":
+                ops.append(["perm", [nmap[a] for a in op[1] if a != i], [emap[j] for j in op[2] if j in emap], op[3]])
+            else:
+                ops.append(op)
+        return {"graph": g2, "ops": ops}
+
+    def without_edge(c, j0):
+        g = c["graph"]
+        emap = {a: b for b, a in enumerate(a for a in range(len(g["edges"])) if a != j0)}
+        g2 = {**g, "edges": [e for a, e in enumerate(g["edges"]) if a != j0]}
+        ops = []
+        for op in c["ops"]:
+            if op[0] in ("e", "c"):
+                if op[1] != j0:
+                    ops.append([op[0], emap[op[1]]] + list(op[2:]))
+            elif op[0] == "perm":
+                ops.append(["perm", op[1], [emap[j] for j in op[2] if j != j0], op[3]])
+            else:
+                ops.append(op)
+        return {"graph": g2, "ops": ops}
+
+    cur = json.loads(json.dumps(case))
+    budget = 80
+    changed = True
+    while changed and budget > 0:
+        changed = False
+        cands = []
+        for a, op in enumerate(cur["ops"][:-1]):
+            if op[0] in ("q", "c", "l", "copy", "perm"):
+                c = json.loads(json.dumps(cur)); del c["ops"][a]; cands.append(c)
+        if len(cur["ops"][-1]) > 1 and cur["ops"][-1][1]:
+            c = json.loads(json.dumps(cur)); c["ops"][-1] = ["q", {}]; cands.append(c)
+        for i, nd in enumerate(cur["graph"]["nodes"]):
+            if nd["part"] == "r":
+                cands.append(without_node(cur, i))
+        for i, nd in enumerate(cur["graph"]["nodes"]):
+            if nd["part"] == "s":
+                cands.append(without_node(cur, i))
+        for j in range(len(cur["graph"]["edges"])):
+            cands.append(without_edge(cur, j))
+        for j, e in enumerate(cur["graph"]["edges"]):
+            if e.get("stoich") is not None and (e["stoich"] > 1 or e.get("float")):
+                c = json.loads(json.dumps(cur))
+                c["graph"]["edges"][j]["stoich"] = max(1, e["stoich"] - 1) if e["stoich"] > 1 else 1
+                c["graph"]["edges"][j].pop("float", None)
+                cands.append(c)
+        for c in cands:
+            budget -= 1
+            if budget <= 0:
+                break
+            if fails(c):
+                cur = c
+                changed = True
+                break
+    extra = {"failing_query": nq(cur) - 1}
+    try:
+        (states, calls), = evaluate_sessions(ctx, [cur], parallel=False, worker=work_graph)
+        extra["construction"] = [x for log in calls for x in log + ["<query every anchored entry point with G>"]]
+        extra["described_network"] = states[-1][0]["dump"]
+    except Exception as e:  # diagnostics only
+        extra["diagnostics_failed"] = repr(e)
+    return cur, extra
+
+
+def run_graphs(ctx, cases, tag):
+    state = {"unknown": 0}
+    for case, (states, calls) in zip(cases, evaluate_sessions(ctx, cases, worker=work_graph)):
+        ctx.count(f"{tag}:graphs")
+        for key in graph_profile(case):
+            ctx.count(key)
+        first_bad = None
+        for k, (obs, cert, lean, _) in enumerate(states):
+            pref = graph_prefix(case, k)
+            record_G(ctx, case, k, obs, cert, tag, ["graph", pref])
+            if first_bad is not None:
+                continue
+            for what, detail, classes, no_input in map(unpack, judge_G(obs, cert, lean)):
+                if not classes:
+                    first_bad = k
+                report(ctx, what, pref, {**detail, "stream": tag, "failing_query": k,
+                                         "construction": [x for log in calls[:k + 1] for x in log + ["<query every anchored entry point with G>"]]},
+                       classes, no_input, state, lambda c, w: shrink_graph(ctx, c, w))
         if state["unknown"] > 40:
             break
 
@@ -1594,6 +2256,275 @@ def rare_net(rnd):
     return net
 
 
+# ---------------------------------------------------------------- hand-built graph populations
+def graph_query_plan(rnd, rich=True):
+    st = {}
+    if rnd.random() < 0.6:
+        order = list(GBLOCKS)
+        rnd.shuffle(order)
+        st["order"] = order
+    if rnd.random() < 0.4:
+        st["warm"] = [rnd.choice(GBLOCKS) for _ in range(rnd.randint(1, 4))]
+    if rich and rnd.random() < 0.3:
+        st["opts"] = {"tol": rnd.choice([1e-12, 1e-10, 1e-9, 1e-8]), "rtol": rnd.choice([1e-13, 1e-12, 1e-11, 1e-10]),
+                      "eps": rnd.choice([1e-8, 2e-8, 1e-7]), "ceps": rnd.choice([1e-8, 1e-6, 1e-3, 0.5])}
+    return st
+
+
+def _canon_int(s):
+    return s.isdigit() and str(int(s)) == s
+
+
+def graph_description(rnd, net, directed):
+    """A bipartite-graph description of the network `net` ({"rxns": [{"r","p","rule"}], "isolated": [..]}): node ids
+    (ints / strings / mixed, related or unrelated to the labels), label attributes (present, missing where the id says
+    it, int-valued), kind / bipartite flags, reaction labels (distinct, tied, missing), stoich (int, float, missing)."""
+    sp = []
+    for r0 in net["rxns"]:
+        for s, _ in r0["r"] + r0["p"]:
+            if s not in sp:
+                sp.append(s)
+    for s in net.get("isolated", []):
+        if s not in sp:
+            sp.append(s)
+    nr = len(net["rxns"])
+    scheme = rnd.choice(["int", "int_rev", "str", "deranged", "mixed", "label", "label"])
+    used = set()
+
+    def fresh(cands):
+        for c in cands:
+            if c not in used:
+                used.add(c)
+                return c
+        raise Infra("no fresh node id")
+
+    def some_int():
+        return fresh(rnd.sample(range(-5, 400), 60))
+
+    def some_str():
+        return fresh([rnd.choice(["n", "S:", "x", "", "R:", "node "]) + str(rnd.randint(0, 99)) for _ in range(60)])
+
+    nodes = []
+    by_label = sorted(sp)
+    deranged = by_label[1:] + by_label[:1]
+    pool_ids = sorted(rnd.sample(range(0, 300), len(sp)), reverse=True)
+    for s in sp:
+        nd = {"part": "s"}
+        if scheme == "int":
+            nd["id"] = some_int()
+        elif scheme == "int_rev":       # increasing id = decreasing label
+            nd["id"] = fresh([pool_ids[by_label.index(s)]] + list(range(400, 500)))
+        elif scheme == "str":
+            nd["id"] = some_str()
+        elif scheme == "deranged":      # the id of a species is the LABEL of another species
+            nd["id"] = fresh([deranged[by_label.index(s)], "id:" + s])
+        elif scheme == "mixed":
+            nd["id"] = some_int() if rnd.random() < 0.5 else some_str()
+        else:                           # id = label (a string, or the int it spells)
+            nd["id"] = fresh([int(s) if _canon_int(s) and rnd.random() < 0.5 else s, "id:" + s])
+        if scheme == "label" and str(nd["id"]) == s and rnd.random() < 0.6:
+            pass                        # no label attribute: the label is the node id converted to string
+        else:
+            nd["label"] = int(s) if _canon_int(s) and rnd.random() < 0.3 else s
+        nodes.append(nd)
+    rmode = rnd.choice(["distinct", "distinct", "rule", "missing", "mixed"])
+    names = [f"r{k + 1}" for k in range(nr)]
+    rnd.shuffle(names)
+    for k, r0 in enumerate(net["rxns"]):
+        nd = {"part": "r"}
+        nd["id"] = (some_int() if rnd.random() < 0.5 else some_str()) if scheme in ("mixed", "label") else \
+            some_str() if scheme in ("str", "deranged") else some_int()
+        how = rmode if rmode != "mixed" else rnd.choice(["distinct", "rule", "missing"])
+        if how == "distinct":
+            nd["label"] = names[k]
+        elif how == "rule":
+            nd["label"] = r0.get("rule") if r0.get("rule") is not None else "r"
+        if rnd.random() < 0.15:
+            nd["extra"] = {"edge_id": f"e{k}"}
+        nodes.append(nd)
+    fmode = rnd.choice(["kind", "bipartite", "both", "both", "mixed"])
+    for nd in nodes:
+        nd["flags"] = fmode if fmode != "mixed" else rnd.choice(["kind", "bipartite", "both"])
+    edges = []
+    for k, r0 in enumerate(net["rxns"]):
+        seen = set()
+        for role, side in (("reactant", r0["r"]), ("product", r0["p"])):
+            for s, c in side:
+                if (s, role) in seen or (not directed and s in {x for x, _ in seen}):
+                    continue            # an undirected graph holds one edge per species / reaction pair
+                seen.add((s, role))
+                e = {"s": sp.index(s), "r": len(sp) + k, "role": role, "stoich": int(c)}
+                if c == 1 and rnd.random() < 0.3:
+                    e["stoich"] = None  # attribute missing: documented default 1
+                elif rnd.random() < 0.15:
+                    e["float"] = True
+                edges.append(e)
+    # a reaction that lost all its edges cannot happen: every generated reaction has a non-empty side
+    return {"directed": directed, "nodes": nodes, "edges": edges}, len(sp)
+
+
+def insertion_ops(rnd, g, node_ids, edge_ids, mode):
+    """Operations inserting the given nodes / edges of the description g."""
+    nodes, edges = g["nodes"], g["edges"]
+    ns = [i for i in node_ids if nodes[i]["part"] == "s"]
+    rs = [i for i in node_ids if nodes[i]["part"] == "r"]
+    es = list(edge_ids)
+    if mode == "appearance":            # the natural loader: species are created the first time a reaction mentions them
+        ops, done = [], set()
+        rnd.shuffle(rs)
+        for k in rs:
+            mine = [j for j in es if edges[j]["r"] == k]
+            for j in mine:
+                if edges[j]["s"] not in done and edges[j]["s"] in ns:
+                    done.add(edges[j]["s"])
+                    ops.append(["n", edges[j]["s"]])
+            ops.append(["n", k])
+            ops += [["e", j] for j in mine]
+        rest = [i for i in ns if i not in done]
+        rnd.shuffle(rest)
+        return ops + [["n", i] for i in rest]
+    if mode == "edges_first":           # add_edge creates the nodes, their attributes follow
+        rnd.shuffle(es)
+        alln = ns + rs
+        rnd.shuffle(alln)
+        return [["e", j] for j in es] + [["n", i] for i in alln]
+    if mode == "interleaved":
+        ops = [["n", i] for i in ns + rs] + [["e", j] for j in es]
+        rnd.shuffle(ops)
+        return ops
+    lab = lambda i: g_label(nodes[i])
+    if mode == "species_desc":
+        ns.sort(key=lab, reverse=True)
+        rs.sort(key=lab, reverse=True)
+        alln = ns + rs
+    elif mode == "sorted":              # control: what hypergraph_to_bipartite does
+        ns.sort(key=lab)
+        rs.sort(key=lab)
+        alln = ns + rs
+    elif mode == "reactions_first":
+        rnd.shuffle(ns)
+        rnd.shuffle(rs)
+        alln = rs + ns
+    else:                               # "shuffled"
+        alln = ns + rs
+        rnd.shuffle(alln)
+    rnd.shuffle(es)
+    return [["n", i] for i in alln] + [["e", j] for j in es]
+
+
+INSERTION_MODES = ["shuffled", "shuffled", "appearance", "appearance", "edges_first", "interleaved", "species_desc", "sorted",
+                   "reactions_first"]
+
+
+def graph_edits(rnd, g, declared, present, labels):
+    """0-2 in-place edits / derived objects applicable to the current graph; `labels`: current label per node index
+    (all nodes of the description, so that a new species label collides with none)."""
+    nodes = g["nodes"]
+    ops = []
+    for _ in range(rnd.choice([0, 1, 1, 2])):
+        c = rnd.random()
+        if c < 0.25 and present:
+            j = rnd.choice(present)
+            ops.append(["c", j, rnd.choice([1, 2, 3, 4])])
+        elif c < 0.55:
+            i = rnd.choice(declared)
+            if nodes[i]["part"] == "s":
+                taken = {labels[k] for k in range(len(nodes)) if nodes[k]["part"] == "s"} | \
+                        {str(nodes[k]["id"]) for k in range(len(nodes)) if nodes[k]["part"] == "s"}
+                new = next((x for x in [rnd.choice(["0", "~", "A", "a", "Z", "s"]) + labels[i], labels[i] + rnd.choice(["'", "0", "_"]),
+                                        "zz" + labels[i], "00" + labels[i]] if x not in taken), None)
+                if new is None:
+                    continue
+            else:
+                new = rnd.choice(["a", "z", "r", "R1", "0", "r10", "r2"])
+            labels[i] = new
+            ops.append(["l", i, new])
+        elif c < 0.70:
+            ops.append(["copy"])
+        else:
+            a, b = list(declared), list(present)
+            rnd.shuffle(a)
+            rnd.shuffle(b)
+            declared[:] = a
+            ops.append(["perm", a, b, rnd.random() < 0.5])
+    return ops
+
+
+def random_graph_case(rnd):
+    c = rnd.random()
+    if c < 0.35:
+        net = tiny_net(rnd)
+    elif c < 0.80:
+        net = random_net(rnd)
+    elif c < 0.92:
+        net = sized_net(rnd, rnd.randint(2, 14), rnd.randint(1, 12))
+    else:
+        net = rnd.choice(textbook(rnd))
+    directed = rnd.random() < 0.55
+    g, n_sp = graph_description(rnd, net, directed)
+    nodes, edges = g["nodes"], g["edges"]
+    labels = [g_label(nd) for nd in nodes]
+    rids = [i for i in range(len(nodes)) if nodes[i]["part"] == "r"]
+    ops = []
+    declared, present = [], []
+    if len(rids) >= 2 and rnd.random() < 0.4:
+        # two stages: part of the network first (queried), the rest appended to the SAME object (queried again)
+        first = set(rnd.sample(rids, rnd.randint(1, len(rids) - 1)))
+        e1 = [j for j, e in enumerate(edges) if e["r"] in first]
+        n1 = sorted(first | {edges[j]["s"] for j in e1})
+        unused = [i for i in range(n_sp) if not any(e["s"] == i for e in edges)]
+        n1 += [i for i in unused if rnd.random() < 0.5]
+        ops += insertion_ops(rnd, g, n1, e1, rnd.choice(INSERTION_MODES))
+        declared, present = [op[1] for op in ops if op[0] == "n"], [op[1] for op in ops if op[0] == "e"]
+        ops.append(["q", graph_query_plan(rnd, rich=False)])
+        ops += graph_edits(rnd, g, declared, present, labels)
+        n2 = [i for i in range(len(nodes)) if i not in n1]
+        e2 = [j for j in range(len(edges)) if j not in e1]
+        more = insertion_ops(rnd, g, n2, e2, rnd.choice(INSERTION_MODES))
+        ops += more
+        declared += [op[1] for op in more if op[0] == "n"]
+        present += [op[1] for op in more if op[0] == "e"]
+    else:
+        ops += insertion_ops(rnd, g, list(range(len(nodes))), list(range(len(edges))), rnd.choice(INSERTION_MODES))
+        declared, present = [op[1] for op in ops if op[0] == "n"], [op[1] for op in ops if op[0] == "e"]
+        if rnd.random() < 0.3:
+            ops.append(["q", graph_query_plan(rnd, rich=False)])
+    if rnd.random() < 0.45:
+        ops += graph_edits(rnd, g, declared, present, labels)
+    ops.append(["q", graph_query_plan(rnd)])
+    return {"graph": g, "ops": ops}
+
+
+def tiny_graph_cases(rnd, n_nets):
+    """<= 2 reactions over A, B, C with coefficients in {0,1,2}; the three species nodes inserted in EVERY order, as a DiGraph
+    and as an undirected Graph; integer node ids in insertion order (so id order, insertion order and label order all differ),
+    reaction nodes labelled r1 / r2 and inserted in either order."""
+    out = []
+    for _ in range(n_nets):
+        net = tiny_net(rnd)
+        rev = rnd.random() < 0.5
+        for perm in itertools.permutations(range(3)):
+            for directed in (True, False):
+                nodes = [{"id": 10 * (perm.index(i) + 1), "part": "s", "label": "ABC"[i], "flags": "both"} for i in range(3)]
+                nr = len(net["rxns"])
+                nodes += [{"id": 5 + 10 * k, "part": "r", "label": f"r{k + 1}", "flags": "both"} for k in range(nr)]
+                edges = []
+                for k, r0 in enumerate(net["rxns"]):
+                    seen = set()
+                    for role, side in (("reactant", r0["r"]), ("product", r0["p"])):
+                        for s, c in side:
+                            if not directed and s in seen:
+                                continue
+                            seen.add(s)
+                            edges.append({"s": "ABC".index(s), "r": 3 + k, "role": role, "stoich": int(c)})
+                rorder = list(range(3, 3 + nr))
+                if rev:
+                    rorder.reverse()
+                ops = [["n", i] for i in perm] + [["n", k] for k in rorder] + [["e", j] for j in range(len(edges))] + [["q", {}]]
+                out.append({"graph": {"directed": directed, "nodes": nodes, "edges": edges}, "ops": ops})
+    return out
+
+
 def malformed():
     return [{"rxns": []}, {"rxns": [], "isolated": ["A"]}]
 
@@ -1624,6 +2555,10 @@ def setup(ctx):
         "session stream: the store is edited only through add_rxn / remove_rxn / remove_species / merge / copy and by changing, in place, "
         "the coefficient of a species that already is on that side of a reaction or the rule label of a reaction (the store invariant of C15 is kept); "
         "the specification side (store dump -> exact certificates -> Lean checkers) is recomputed per state and never sees the history",
+        "hand-built graph stream: species labels are distinct after str(); node ids are ints / strings; every reaction node has at least one "
+        "edge; at most one edge per (species, reaction, role) in a DiGraph and per (species, reaction) in an undirected Graph; arcs point "
+        "species -> reaction for reactants and reaction -> species for products; coefficients are positive integers (int, integral float, or "
+        "absent = 1); the order among equally labelled reactions is not gated (columns compared as a multiset per label)",
         "non-default tolerances are kept within 1e-13..1e-8 (rank / null space), 1e-8..1e-7 (conservativity margin) and < 1 (consistency margin, "
         "the LP bounds v >= 1): for the tiny integer matrices generated here the property's answers do not depend on them",
     ]
@@ -1645,9 +2580,21 @@ def setup(ctx):
                     "labels that look like node / edge ids), numeric-looking and empty rules, explicit ids incl. '' and '10' / '9', catalysts, "
                     "duplicates, every input form of add_rxn (dict, label list, pairs, RXNSide, reaction string), random query order, and for a "
                     "share of the cases build_S on NetworkX views made with non-default options (integer ids, other / no prefixes, without isolated "
-                    "species, kind-only or bipartite-only node attributes) and a second round of queries with non-default tolerances. GATES: " + GATES)
+                    "species, kind-only or bipartite-only node attributes) and a second round of queries with non-default tolerances; "
+                    "GRAPH-TINY (300 quick / 3600 thorough): <= 2 reactions over A,B,C with coefficients in {0,1,2} as a hand-built bipartite "
+                    "NetworkX graph with the three species nodes inserted in EVERY order, as DiGraph and as undirected Graph, integer ids in "
+                    "insertion order; GRAPH (500 quick / 5000 thorough graphs, ~1.4 queries each): tiny / random / sized (<= 14 species) / textbook "
+                    "networks as hand-built DiGraph / Graph: node ids int / str / mixed / equal to the label / equal to ANOTHER species' label / "
+                    "decreasing with the label, label attribute present / absent (id is the label) / int-valued, kind-only / bipartite-only / "
+                    "both flags (per graph or per node), reaction labels distinct / tied / absent, stoich int / integral float / absent, "
+                    "insertion orders shuffled / order of first appearance per reaction / edges first (add_edge creates the nodes) / fully "
+                    "interleaved / descending / sorted (control) / reactions first; 40 % built in two stages (part of the network queried, the "
+                    "rest appended to the SAME object, queried again), in-place coefficient and label changes, G.copy(), rebuilt objects with "
+                    "another insertion order (old object kept or released), per-query random order of the entry points, warm-up queries, "
+                    "non-default tolerances. GATES: " + GATES)
     ctx.nontrivial_rule = ("distinct stored network (species + reactions with ids and rules) with at least one reaction and certified rank >= 1; "
-                           "a session state is identified by the whole history (base network, edits, query plan) that led to it")
+                           "a session state is identified by the whole history (base network, edits, query plan) that led to it; "
+                           "a query on a hand-built graph by the graph description and the operations up to the query")
 
 
 def run(ctx):
@@ -1660,7 +2607,8 @@ def run(ctx):
             os.environ.setdefault(var, "1")
         pool()
         reg = load_regress()
-        run_nets(ctx, [c["net"] for c in reg if "steps" not in c], "regress")
+        run_nets(ctx, [c["net"] for c in reg if "steps" not in c and "ops" not in c], "regress")
+        run_graphs(ctx, [{k: c[k] for k in ("graph", "ops")} for c in reg if "ops" in c], "regress")
         run_sessions(ctx, [{k: c[k] for k in ("net", "first", "steps", "reuse_view") if k in c} for c in reg if "steps" in c], "regress")
         ctx.count("regress_cases", len(reg))
         run_nets(ctx, malformed(), "malformed")
@@ -1684,6 +2632,10 @@ def run(ctx):
         run_nets(ctx, sized_population(ctx.rnd, ctx.quick), "sized")
         # -- rare but legal shapes, input forms, NetworkX view variants, query orders, non-default tolerances
         run_nets(ctx, [rare_net(ctx.rnd) for _ in range(600 if ctx.quick else 6000)], "rare")
+        # -- the network handed over as a hand-built bipartite NetworkX graph (DiGraph / undirected Graph): node insertion
+        #    order, node ids and labels unrelated; extended / edited / copied / rebuilt objects queried again
+        run_graphs(ctx, tiny_graph_cases(ctx.rnd, 25 if ctx.quick else 300), "graph-tiny")
+        run_graphs(ctx, [random_graph_case(ctx.rnd) for _ in range(500 if ctx.quick else 5000)], "graph")
     finally:
         close_pool()
     ctx.violations.sort(key=lambda x: bool(x["no_input"]))     # failing inputs first (stable)
@@ -1696,7 +2648,9 @@ def replay(ctx, case):
     setup(ctx)
     c = case.get("case", case)
     try:
-        if "steps" in c:
+        if "ops" in c:
+            run_graphs(ctx, [{k: c[k] for k in ("graph", "ops")}], "replay")
+        elif "steps" in c:
             run_sessions(ctx, [c], "replay")
         else:
             run_nets(ctx, [c["net"]], "replay")
